@@ -8,15 +8,27 @@ comparison with the real code is exact on the machine representation.
   t2|t6|t12 <op> <a> [<b>|<k>]          tower operations
   g1|g2 <add|dbl|mul|aff|neg|onc> …     Jacobian point operations (receiver state included)
   miller|pair <Q> <P>, finexp <f>, check <P;Q|…>
+  k1|k2|kt <op> …                       kyber-level methods of point.go on raw operands (go/props/c10/kyber.go)
+
+Round 4: every tower / curve / pairing / kyber-level / gfp.go-helper operation below is computed by the
+TRANSLATED function (`Dos.Gen.Bn256Code.*`, regenerated from the Go source by go/extract/bn256code on every
+run) at the Montgomery model `GFp` with the regenerated constants; the hand models they are proved equal to
+(Props/C10Code, Props/C10Kyber) are no longer called here. Only the byte-level marshalling of the `api` cases
+(property C11's codec) and the assembly interpreter are hand models.
 -/
 import DosModel.Model.Util
 import DosModel.Model.AsmBn256
 import DosModel.Model.Bn256CPairing
 import DosModel.Gen.Bn256Asm
+import DosModel.Gen.Bn256Code
 
 open Dos Dos.Bn256 Dos.Mont
 
 namespace C10Drv
+open Dos.Gen
+
+def order : Nat := Gen.Bn256.Order
+def cs : FrobConsts GFp := frobConsts
 
 def hexNat (s : String) : Option Nat := (ofHex s).map beNat
 def natHex (n : Nat) : String := toHex (natBE 32 n)
@@ -87,58 +99,58 @@ def orBad (o : Option String) : String := o.getD bad
 def t2Case (op : String) (args : List String) : String := orBad do
   let a ← fp2Of (splitC (← args[0]?))
   match op with
-  | "sq" => pure (fp2Hex a.square)
-  | "inv" => pure (fp2Hex a.invert)
-  | "xi" => pure (fp2Hex a.mulXi)
-  | "conj" => pure (fp2Hex a.conjugate)
-  | "neg" => pure (fp2Hex a.neg)
-  | "muls" => do let b ← gfpOf (← args[1]?); pure (fp2Hex (a.mulScalar b))
+  | "sq" => pure (fp2Hex (Bn256Code.gfP2_square a))
+  | "inv" => pure (fp2Hex (Bn256Code.gfP2_invert a))
+  | "xi" => pure (fp2Hex (Bn256Code.gfP2_mulXi a))
+  | "conj" => pure (fp2Hex (Bn256Code.gfP2_conjugate a))
+  | "neg" => pure (fp2Hex (Bn256Code.gfP2_neg a))
+  | "muls" => do let b ← gfpOf (← args[1]?); pure (fp2Hex (Bn256Code.gfP2_mulScalar a b))
   | _ =>
     let b ← fp2Of (splitC (← args[1]?))
     match op with
-    | "mul" => pure (fp2Hex (a.mul b))
-    | "add" => pure (fp2Hex (a.add b))
-    | "sub" => pure (fp2Hex (a.sub b))
+    | "mul" => pure (fp2Hex (Bn256Code.gfP2_mul a b))
+    | "add" => pure (fp2Hex (Bn256Code.gfP2_add a b))
+    | "sub" => pure (fp2Hex (Bn256Code.gfP2_sub a b))
     | _ => none
 
 def t6Case (op : String) (args : List String) : String := orBad do
   let a ← fp6Of (splitC (← args[0]?))
   match op with
-  | "sq" => pure (fp6Hex a.square)
-  | "inv" => pure (fp6Hex a.invert)
-  | "tau" => pure (fp6Hex a.mulTau)
-  | "neg" => pure (fp6Hex a.neg)
-  | "frob" => pure (fp6Hex (Fp6.frobenius a))
-  | "frob2" => pure (fp6Hex (Fp6.frobeniusP2 a))
-  | "frob4" => pure (fp6Hex (Fp6.frobeniusP4 a))
-  | "muls" => do let b ← fp2Of (splitC (← args[1]?)); pure (fp6Hex (a.mulScalar b))
-  | "mulg" => do let b ← gfpOf (← args[1]?); pure (fp6Hex (a.mulGFP b))
+  | "sq" => pure (fp6Hex (Bn256Code.gfP6_square a))
+  | "inv" => pure (fp6Hex (Bn256Code.gfP6_invert a))
+  | "tau" => pure (fp6Hex (Bn256Code.gfP6_mulTau a))
+  | "neg" => pure (fp6Hex (Bn256Code.gfP6_neg a))
+  | "frob" => pure (fp6Hex (Bn256Code.gfP6_frobenius cs a))
+  | "frob2" => pure (fp6Hex (Bn256Code.gfP6_frobeniusP2 cs a))
+  | "frob4" => pure (fp6Hex (Bn256Code.gfP6_frobeniusP4 cs a))
+  | "muls" => do let b ← fp2Of (splitC (← args[1]?)); pure (fp6Hex (Bn256Code.gfP6_mulScalar a b))
+  | "mulg" => do let b ← gfpOf (← args[1]?); pure (fp6Hex (Bn256Code.gfP6_mulGFP a b))
   | _ =>
     let b ← fp6Of (splitC (← args[1]?))
     match op with
-    | "mul" => pure (fp6Hex (a.mul b))
-    | "add" => pure (fp6Hex (a.add b))
-    | "sub" => pure (fp6Hex (a.sub b))
+    | "mul" => pure (fp6Hex (Bn256Code.gfP6_mul a b))
+    | "add" => pure (fp6Hex (Bn256Code.gfP6_add a b))
+    | "sub" => pure (fp6Hex (Bn256Code.gfP6_sub a b))
     | _ => none
 
 def t12Case (op : String) (args : List String) : String := orBad do
   let a ← fp12Of (splitC (← args[0]?))
   match op with
-  | "sq" => pure (fp12Hex a.square)
-  | "inv" => pure (fp12Hex a.invert)
-  | "conj" => pure (fp12Hex a.conjugate)
-  | "neg" => pure (fp12Hex a.neg)
-  | "frob" => pure (fp12Hex (Fp12.frobenius a))
-  | "frob2" => pure (fp12Hex (Fp12.frobeniusP2 a))
-  | "frob4" => pure (fp12Hex (Fp12.frobeniusP4 a))
-  | "exp" => do let k ← (← args[1]?).toNat?; pure (fp12Hex (a.exp k))
-  | "finexp" => pure (fp12Hex (finalExponentiation a))
+  | "sq" => pure (fp12Hex (Bn256Code.gfP12_square a))
+  | "inv" => pure (fp12Hex (Bn256Code.gfP12_invert a))
+  | "conj" => pure (fp12Hex (Bn256Code.gfP12_conjugate a))
+  | "neg" => pure (fp12Hex (Bn256Code.gfP12_neg a))
+  | "frob" => pure (fp12Hex (Bn256Code.gfP12_frobenius cs a))
+  | "frob2" => pure (fp12Hex (Bn256Code.gfP12_frobeniusP2 cs a))
+  | "frob4" => pure (fp12Hex (Bn256Code.gfP12_frobeniusP4 cs a))
+  | "exp" => do let k ← (← args[1]?).toNat?; pure (fp12Hex (Bn256Code.gfP12_exp a k))
+  | "finexp" => pure (fp12Hex (Bn256Code.finalExponentiation cs uParam a))
   | _ =>
     let b ← fp12Of (splitC (← args[1]?))
     match op with
-    | "mul" => pure (fp12Hex (a.mul b))
-    | "add" => pure (fp12Hex (a.add b))
-    | "sub" => pure (fp12Hex (a.sub b))
+    | "mul" => pure (fp12Hex (Bn256Code.gfP12_mul a b))
+    | "add" => pure (fp12Hex (Bn256Code.gfP12_add a b))
+    | "sub" => pure (fp12Hex (Bn256Code.gfP12_sub a b))
     | _ => none
 
 /-- receiver / operand aliasing of a point operation: the aliased operand is the SAME object -/
@@ -155,34 +167,34 @@ def g1Case (op : String) (args : List String) : String := orBad do
   match op with
   | "add" =>
       let (c, a, b) ← pick3 (← args[0]?) (← g1Of (← args[1]?)) (← g1Of (← args[2]?)) (← g1Of (← args[3]?))
-      pure (g1Hex (Jac.add c a b))
+      pure (g1Hex (Bn256Code.curvePoint_add c a b))
   | "dbl" =>
       let (c, a, _) ← pick3 (← args[0]?) (← g1Of (← args[1]?)) (← g1Of (← args[2]?)) (← g1Of (← args[2]?))
-      pure (g1Hex (Jac.double c a))
+      pure (g1Hex (Bn256Code.curvePoint_double c a))
   | "mul" => do
       let a ← g1Of (← args[0]?)
       let k ← (← args[1]?).toNat?
-      pure (g1Hex (Jac.curveMul a k))
-  | "aff" => do pure (g1Hex (← g1Of (← args[0]?)).makeAffine)
-  | "neg" => do pure (g1Hex (curveNeg (← g1Of (← args[0]?))))
-  | "onc" => do pure (toString (curveIsOnCurve (← g1Of (← args[0]?))))
+      pure (g1Hex (Bn256Code.curvePoint_mul a k))
+  | "aff" => do pure (g1Hex (Bn256Code.curvePoint_makeAffine (← g1Of (← args[0]?))))
+  | "neg" => do pure (g1Hex (Bn256Code.curvePoint_neg (← g1Of (← args[0]?))))
+  | "onc" => do pure (toString (Bn256Code.curvePoint_isOnCurve curveB (← g1Of (← args[0]?))).2)
   | _ => none
 
 def g2Case (op : String) (args : List String) : String := orBad do
   match op with
   | "add" =>
       let (c, a, b) ← pick3 (← args[0]?) (← g2Of (← args[1]?)) (← g2Of (← args[2]?)) (← g2Of (← args[3]?))
-      pure (g2Hex (Jac.add c a b))
+      pure (g2Hex (Bn256Code.twistPoint_add c a b))
   | "dbl" =>
       let (c, a, _) ← pick3 (← args[0]?) (← g2Of (← args[1]?)) (← g2Of (← args[2]?)) (← g2Of (← args[2]?))
-      pure (g2Hex (Jac.double c a))
+      pure (g2Hex (Bn256Code.twistPoint_double c a))
   | "mul" => do
       let a ← g2Of (← args[0]?)
       let k ← (← args[1]?).toNat?
-      pure (g2Hex (Jac.twistMul a k))
-  | "aff" => do pure (g2Hex (← g2Of (← args[0]?)).makeAffine)
-  | "neg" => do pure (g2Hex (twistNeg (← g2Of (← args[0]?))))
-  | "onc" => do pure (toString (twistIsOnCurve (← g2Of (← args[0]?))))
+      pure (g2Hex (Bn256Code.twistPoint_mul a k))
+  | "aff" => do pure (g2Hex (Bn256Code.twistPoint_makeAffine (← g2Of (← args[0]?))))
+  | "neg" => do pure (g2Hex (Bn256Code.twistPoint_neg (← g2Of (← args[0]?))))
+  | "onc" => do pure (toString (Bn256Code.twistPoint_isOnCurve order twistB (← g2Of (← args[0]?))).2)
   | _ => none
 
 def pairsOf (s : String) : Option (List (G1J × G2J)) :=
@@ -239,7 +251,14 @@ def gtMarshal (e : F12) : String := String.join ((f12Coords e).map dec)
 def gtClone (e : F12) : F12 :=
   ⟨⟨reenc2 e.x.x, reenc2 e.x.y, reenc2 e.x.z⟩, ⟨reenc2 e.y.x, reenc2 e.y.y, reenc2 e.y.z⟩⟩
 
-def order : Nat := Gen.Bn256.Order
+/-- the big.Int `V` of a mod.Int scalar set to the integer k (kyber/group/mod: V = k mod Order, 0 ≤ V < Order) -/
+def scalarV (k : Int) : Nat := (k % (order : Int)).toNat
+
+/-- PairingCheck through the translated kyber-level function (`none`: Go panics with index out of range) -/
+def checkStr (ps : List (G1J × G2J)) : String :=
+  match Bn256Code.pointGT_pairingCheck cs uParam (ps.map (·.1)) (ps.map (·.2)) with
+  | some v => toString v
+  | none => "panic"
 
 def apiOp (rs : Regs) (dst name : String) (args : List String) : Option Regs := do
   let kind := dst.front
@@ -253,7 +272,7 @@ def apiOp (rs : Regs) (dst name : String) (args : List String) : Option Regs := 
           | _, _ => none
       | _ => none
     let ps ← pairs args
-    return rs.put dst (.b (pairingCheck ps))
+    return rs.put dst (.b ((Bn256Code.pointGT_pairingCheck cs uParam (ps.map (·.1)) (ps.map (·.2))).getD false))
   if kind == 'p' then
     let recv : G1J := match rs.get? dst with
       | some (.g1 p) => p
@@ -262,13 +281,13 @@ def apiOp (rs : Regs) (dst name : String) (args : List String) : Option Regs := 
       | some (.g1 p) => some p
       | _ => none
     let v ← (match name with
-      | "base" => some curveGen
-      | "null" => some Jac.infinity
-      | "mul" => do pure (Jac.curveMul (← g (← args[1]?)) ((← (← args[0]?).toNat?) % order))
-      | "add" => do pure (Jac.add recv (← g (← args[0]?)) (← g (← args[1]?)))
-      | "sub" => do pure (Jac.add recv (← g (← args[0]?)) (curveNeg (← g (← args[1]?))))
-      | "neg" => do pure (curveNeg (← g (← args[0]?)))
-      | "set" => do g (← args[0]?)
+      | "base" => some (Bn256Code.pointG1_base curveGen)
+      | "null" => some Bn256Code.pointG1_null
+      | "mul" => do pure (Bn256Code.pointG1_mul (scalarV (← (← args[0]?).toInt?)) (← g (← args[1]?)))
+      | "add" => do pure (Bn256Code.pointG1_add recv (← g (← args[0]?)) (← g (← args[1]?)))
+      | "sub" => do pure (Bn256Code.pointG1_sub recv (← g (← args[0]?)) (← g (← args[1]?)))
+      | "neg" => do pure (Bn256Code.pointG1_neg (← g (← args[0]?)))
+      | "set" => do pure (Bn256Code.pointG1_set (← g (← args[0]?)))
       | "clone" => do pure (g1Clone (← g (← args[0]?)))
       | _ => none)
     return rs.put dst (.g1 v)
@@ -288,13 +307,13 @@ def apiOp (rs : Regs) (dst name : String) (args : List String) : Option Regs := 
         return rs.put dst (.g2 (g2Clone a))
     | _ =>
       let v ← (match name with
-        | "base" => some twistGen
-        | "null" => some Jac.infinity
-        | "mul" => do pure (Jac.twistMul (← g (← args[1]?)) ((← (← args[0]?).toNat?) % order))
-        | "add" => do pure (Jac.add recv (← g (← args[0]?)) (← g (← args[1]?)))
-        | "sub" => do pure (Jac.add recv (← g (← args[0]?)) (twistNeg (← g (← args[1]?))))
-        | "neg" => do pure (twistNeg (← g (← args[0]?)))
-        | "set" => do g (← args[0]?)
+        | "base" => some (Bn256Code.pointG2_base twistGen)
+        | "null" => some Bn256Code.pointG2_null
+        | "mul" => do pure (Bn256Code.pointG2_mul (scalarV (← (← args[0]?).toInt?)) (← g (← args[1]?)))
+        | "add" => do pure (Bn256Code.pointG2_add recv (← g (← args[0]?)) (← g (← args[1]?)))
+        | "sub" => do pure (Bn256Code.pointG2_sub recv (← g (← args[0]?)) (← g (← args[1]?)))
+        | "neg" => do pure (Bn256Code.pointG2_neg (← g (← args[0]?)))
+        | "set" => do pure (Bn256Code.pointG2_set (← g (← args[0]?)))
         | _ => none)
       return rs.put dst (.g2 v)
   if kind == 'e' then
@@ -302,17 +321,17 @@ def apiOp (rs : Regs) (dst name : String) (args : List String) : Option Regs := 
       | some (.gt p) => some p
       | _ => none
     let v ← (match name with
-      | "base" => some gfP12Gen
-      | "null" => some gfP12Inf
-      | "mul" => do pure ((← g (← args[1]?)).exp ((← (← args[0]?).toNat?) % order))
-      | "add" => do pure ((← g (← args[0]?)).mul (← g (← args[1]?)))
-      | "sub" => do pure ((← g (← args[0]?)).mul (← g (← args[1]?)).conjugate)
-      | "neg" => do pure (← g (← args[0]?)).conjugate
-      | "set" => do g (← args[0]?)
+      | "base" => some (Bn256Code.pointGT_base gfP12Gen)
+      | "null" => some (Bn256Code.pointGT_null gfP12Inf)
+      | "mul" => do pure (Bn256Code.pointGT_mul (scalarV (← (← args[0]?).toInt?)) (← g (← args[1]?)))
+      | "add" => do pure (Bn256Code.pointGT_add (← g (← args[0]?)) (← g (← args[1]?)))
+      | "sub" => do pure (Bn256Code.pointGT_sub (← g (← args[0]?)) (← g (← args[1]?)))
+      | "neg" => do pure (Bn256Code.pointGT_neg (← g (← args[0]?)))
+      | "set" => do pure (Bn256Code.pointGT_set (← g (← args[0]?)))
       | "clone" => do pure (gtClone (← g (← args[0]?)))
       | "pair" => do
           match ← rs.get? (← args[0]?), ← rs.get? (← args[1]?) with
-          | .g1 a, .g2 b => pure (optimalAte b a)
+          | .g1 a, .g2 b => pure (Bn256Code.pointGT_pair cs uParam a b)
           | _, _ => none
       | _ => none)
     return rs.put dst (.gt v)
@@ -336,6 +355,78 @@ def apiCase (prog : String) : String := orBad do
     | .b v => pure (n ++ "=" ++ toString v)
   pure (" ".intercalate outs)
 
+/-! ### kyber-level methods on raw operands: the translated point.go -/
+
+/-- run a kyber-level binary method `recv.op(a, b)` under an aliasing pattern; the observation is the content
+of the three objects after the call (the translation writes only the receiver) -/
+def kyBin {α : Type} (hex : α → String) (f : α → α → α → α) (alias : String) (c a b : α) : Option String := do
+  let (c', a', b') ← pick3 alias c a b
+  let r := f c' a' b'
+  let out (isRecv : Bool) (x : α) : String := if isRecv then hex r else hex x
+  match alias with
+  | "n" => pure (hex r ++ "|" ++ hex a' ++ "|" ++ hex b')
+  | "ca" => pure (hex r ++ "|" ++ hex r ++ "|" ++ hex b')
+  | "cb" => pure (hex r ++ "|" ++ hex a' ++ "|" ++ hex r)
+  | "ab" => pure (hex r ++ "|" ++ hex a' ++ "|" ++ hex a')
+  | "cab" => pure (out true c' ++ "|" ++ hex r ++ "|" ++ hex r)
+  | _ => none
+
+def kyUn {α : Type} (hex : α → String) (f : α → α → α) (alias : String) (c a : α) : Option String :=
+  match alias with
+  | "n" => some (hex (f c a) ++ "|" ++ hex a)
+  | "ca" => some (hex (f a a) ++ "|" ++ hex (f a a))
+  | _ => none
+
+def k1Case (op : String) (args : List String) : String := orBad do
+  match op with
+  | "add" => kyBin g1Hex Bn256Code.pointG1_add (← args[0]?) (← g1Of (← args[1]?)) (← g1Of (← args[2]?)) (← g1Of (← args[3]?))
+  | "sub" => kyBin g1Hex Bn256Code.pointG1_sub (← args[0]?) (← g1Of (← args[1]?)) (← g1Of (← args[2]?)) (← g1Of (← args[3]?))
+  | "neg" => kyUn g1Hex (fun _ a => Bn256Code.pointG1_neg a) (← args[0]?) (← g1Of (← args[1]?)) (← g1Of (← args[2]?))
+  | "set" => kyUn g1Hex (fun _ a => Bn256Code.pointG1_set a) (← args[0]?) (← g1Of (← args[1]?)) (← g1Of (← args[2]?))
+  | "mul" => do
+      let k ← (← args[3]?).toInt?
+      kyUn g1Hex (fun _ a => Bn256Code.pointG1_mul (scalarV k) a) (← args[0]?) (← g1Of (← args[1]?)) (← g1Of (← args[2]?))
+  | "mulnil" => do
+      let _ ← g1Of (← args[0]?)
+      pure (g1Hex (Bn256Code.pointG1_mul_nil_q curveGen (scalarV (← (← args[1]?).toInt?))))
+  | "null" => do let _ ← g1Of (← args[0]?); pure (g1Hex (Bn256Code.pointG1_null : G1J))
+  | "base" => do let _ ← g1Of (← args[0]?); pure (g1Hex (Bn256Code.pointG1_base curveGen))
+  | _ => none
+
+def k2Case (op : String) (args : List String) : String := orBad do
+  match op with
+  | "add" => kyBin g2Hex Bn256Code.pointG2_add (← args[0]?) (← g2Of (← args[1]?)) (← g2Of (← args[2]?)) (← g2Of (← args[3]?))
+  | "sub" => kyBin g2Hex Bn256Code.pointG2_sub (← args[0]?) (← g2Of (← args[1]?)) (← g2Of (← args[2]?)) (← g2Of (← args[3]?))
+  | "neg" => kyUn g2Hex (fun _ a => Bn256Code.pointG2_neg a) (← args[0]?) (← g2Of (← args[1]?)) (← g2Of (← args[2]?))
+  | "set" => kyUn g2Hex (fun _ a => Bn256Code.pointG2_set a) (← args[0]?) (← g2Of (← args[1]?)) (← g2Of (← args[2]?))
+  | "mul" => do
+      let k ← (← args[3]?).toInt?
+      kyUn g2Hex (fun _ a => Bn256Code.pointG2_mul (scalarV k) a) (← args[0]?) (← g2Of (← args[1]?)) (← g2Of (← args[2]?))
+  | "mulnil" => do
+      let _ ← g2Of (← args[0]?)
+      pure (g2Hex (Bn256Code.pointG2_mul_nil_q twistGen (scalarV (← (← args[1]?).toInt?))))
+  | "null" => do let _ ← g2Of (← args[0]?); pure (g2Hex (Bn256Code.pointG2_null : G2J))
+  | "base" => do let _ ← g2Of (← args[0]?); pure (g2Hex (Bn256Code.pointG2_base twistGen))
+  | _ => none
+
+def gtOf (s : String) : Option F12 := fp12Of (splitC s)
+
+def ktCase (op : String) (args : List String) : String := orBad do
+  match op with
+  | "add" => kyBin fp12Hex (fun _ a b => Bn256Code.pointGT_add a b) (← args[0]?) (← gtOf (← args[1]?)) (← gtOf (← args[2]?)) (← gtOf (← args[3]?))
+  | "sub" => kyBin fp12Hex (fun _ a b => Bn256Code.pointGT_sub a b) (← args[0]?) (← gtOf (← args[1]?)) (← gtOf (← args[2]?)) (← gtOf (← args[3]?))
+  | "neg" => kyUn fp12Hex (fun _ a => Bn256Code.pointGT_neg a) (← args[0]?) (← gtOf (← args[1]?)) (← gtOf (← args[2]?))
+  | "set" => kyUn fp12Hex (fun _ a => Bn256Code.pointGT_set a) (← args[0]?) (← gtOf (← args[1]?)) (← gtOf (← args[2]?))
+  | "mul" => do
+      let k ← (← args[3]?).toInt?
+      kyUn fp12Hex (fun _ a => Bn256Code.pointGT_mul (scalarV k) a) (← args[0]?) (← gtOf (← args[1]?)) (← gtOf (← args[2]?))
+  | "mulnil" => do
+      let _ ← gtOf (← args[0]?)
+      pure (fp12Hex (Bn256Code.pointGT_mul_nil_q gfP12Gen (scalarV (← (← args[1]?).toInt?))))
+  | "null" => do let _ ← gtOf (← args[0]?); pure (fp12Hex (Bn256Code.pointGT_null gfP12Inf))
+  | "base" => do let _ ← gtOf (← args[0]?); pure (fp12Hex (Bn256Code.pointGT_base gfP12Gen))
+  | _ => none
+
 /-- tower operation under a receiver / operand aliasing pattern: the model is a function of the operand VALUES,
 so aliasing only matters through "both operands are the same object" (the second operand is then the first) -/
 def towerAlias (f : String → List String → String) (op alias : String) (args : List String) : String :=
@@ -349,10 +440,10 @@ def towerAlias (f : String → List String → String) (op alias : String) (args
 def step (line : String) : String :=
   match words line with
   | ["f", op, alias, a, b] => fieldCase op alias a b
-  | ["fx", "enc", a] => orBad do pure (gfpHex (GFp.montEncode (← gfpOf a)))
-  | ["fx", "dec", a] => orBad do pure (gfpHex (GFp.montDecode (← gfpOf a)))
-  | ["fx", "inv", a] => orBad do pure (gfpHex (GFp.invert (← gfpOf a)))
-  | ["fx", "new", k] => orBad do pure (gfpHex (GFp.newGFp (← k.toInt?)))
+  | ["fx", "enc", a] => orBad do pure (gfpHex (Bn256Code.montEncode GFp.r2 (← gfpOf a)))
+  | ["fx", "dec", a] => orBad do pure (gfpHex (Bn256Code.montDecode (← gfpOf a)))
+  | ["fx", "inv", a] => orBad do pure (gfpHex (Bn256Code.gfP_invert GFp.r3 GFp.rN1 (← gfpOf a)))
+  | ["fx", "new", k] => orBad do pure (gfpHex (Bn256Code.newGFp GFp.r2 (← k.toInt?)))
   | "t2a" :: op :: alias :: args => towerAlias t2Case op alias args
   | "t6a" :: op :: alias :: args => towerAlias t6Case op alias args
   | "t12a" :: op :: alias :: args => towerAlias t12Case op alias args
@@ -361,11 +452,14 @@ def step (line : String) : String :=
   | "t12" :: op :: args => t12Case op args
   | "g1" :: op :: args => g1Case op args
   | "g2" :: op :: args => g2Case op args
-  | ["miller", q, p] => orBad do pure (fp12Hex (miller (← g2Of q) (← g1Of p)))
-  | ["pair", q, p] => orBad do pure (fp12Hex (optimalAte (← g2Of q) (← g1Of p)))
-  | ["pair", q, p, _, _] => orBad do pure (fp12Hex (optimalAte (← g2Of q) (← g1Of p)))
+  | ["miller", q, p] => orBad do pure (fp12Hex (Bn256Code.pointGT_miller cs (← g1Of p) (← g2Of q)))
+  | ["pair", q, p] => orBad do pure (fp12Hex (Bn256Code.pointGT_pair cs uParam (← g1Of p) (← g2Of q)))
+  | ["pair", q, p, _, _] => orBad do pure (fp12Hex (Bn256Code.pointGT_pair cs uParam (← g1Of p) (← g2Of q)))
   | ["api", prog] => apiCase prog
-  | ["check", ps] => orBad do pure (toString (pairingCheck (← pairsOf ps)))
+  | ["check", ps] => orBad do pure (checkStr (← pairsOf ps))
+  | "k1" :: op :: args => k1Case op args
+  | "k2" :: op :: args => k2Case op args
+  | "kt" :: op :: args => ktCase op args
   | ["const", name] =>
       match name with
       | "curveGen" => g1Hex curveGen
